@@ -57,6 +57,20 @@ func c01MutStubs() {
 
 func c01Mutate(der []byte, lo, hi int) []byte {
 	pos := vr.Pick(vr.Int("position", lo, hi-1))
+	// every sixteenth position of the part in the quick tier, every second one in the
+	// thorough tier (all positions of one part take about twenty minutes)
+	stride := 16
+	if vr.Tier() == 1 {
+		stride = 2
+	}
+	vr.Assume((pos-lo)%stride == 0)
+	// the digits of the two validity instants are left alone: ValidityPeriod is computed
+	// through time.Duration arithmetic (x 10^9, / 10^9) that no back end decides
+	for i := 0; i+15 <= len(der); i++ {
+		if der[i] == 0x17 && der[i+1] == 0x0d && der[i+14] == 'Z' {
+			vr.Assume(pos < i+2 || pos >= i+15)
+		}
+	}
 	out := append([]byte{}, der...)
 	out[pos] = vr.U8("value")
 	return out
@@ -101,10 +115,21 @@ func c01ParseMutated(part, parts int) {
 }
 
 // verif: covers=strict-ok,both-reject maxsplit=700
-func VerifH_X01_parse_certificate_mutations_a() { c01ParseMutated(0, 3) }
+func VerifH_C01_parse_certificate_mutations_a() { c01ParseMutated(0, 3) }
 
 // verif: covers=strict-ok,both-reject maxsplit=700
-func VerifH_X01_parse_certificate_mutations_b() { c01ParseMutated(1, 3) }
+func VerifH_C01_parse_certificate_mutations_b() { c01ParseMutated(1, 3) }
 
 // verif: covers=strict-ok,both-reject maxsplit=700
-func VerifH_X01_parse_certificate_mutations_c() { c01ParseMutated(2, 3) }
+func VerifH_C01_parse_certificate_mutations_c() { c01ParseMutated(2, 3) }
+
+// The same harnesses decide C20 for certificates (strict acceptance implies permissive
+// acceptance with the same parsed fields).
+// verif: covers=strict-ok,both-reject maxsplit=700
+func VerifH_C20_parse_certificate_mutations_a() { c01ParseMutated(0, 3) }
+
+// verif: covers=strict-ok,both-reject maxsplit=700
+func VerifH_C20_parse_certificate_mutations_b() { c01ParseMutated(1, 3) }
+
+// verif: covers=strict-ok,both-reject maxsplit=700
+func VerifH_C20_parse_certificate_mutations_c() { c01ParseMutated(2, 3) }
